@@ -344,7 +344,7 @@ RunProg(S, c, prog, i, keys, args, tm, fz, robs) ==
              outs == IF name \in NotInScripts THEN SFail(S)
                      ELSE IF binary /\ "script_binary" \in Deviations
                      THEN {[r |-> RErr, S |-> S, dv |-> {"script_binary"}]}
-                     ELSE Exec1(S, c, argv, tm, IF st.ret = 1 THEN robs ELSE NoObs, TRUE)
+                     ELSE Exec1(S, c, argv, tm, IF st.ret = 1 /\ (name \notin ScanCommands \/ ObsOK(robs)) THEN robs ELSE NoObs, TRUE)
          IN UNION {
               IF o.r.t = "err" /\ st.k = "call" THEN {[r |-> RErr, S |-> o.S, dv |-> o.dv]}          \* raised: script aborted
               ELSE IF st.ret = 1
